@@ -454,6 +454,12 @@ class APIConnection:
                 sock=self._socket,
             )
 
+        if self.connection_state is CONNECTION_STATE_CLOSED:
+            # The connection was closed while the transport was being
+            # created, _cleanup already ran and will not close it
+            fh.close()
+            self._raise_if_closed()
+
         # Set the frame helper right away to ensure
         # the socket gets closed if we fail to handshake
         self._frame_helper = fh
@@ -472,6 +478,7 @@ class APIConnection:
             raise HandshakeAPIError(f"Handshake failed: {err}") from err
         finally:
             handshake_handle.cancel()
+        self._raise_if_closed()
         self._set_connection_state(CONNECTION_STATE_HANDSHAKE_COMPLETE)
 
     async def _connect_hello_login(self, login: bool) -> None:
@@ -662,7 +669,17 @@ class APIConnection:
         await self._connect_init_frame_helper()
         self._register_internal_message_handlers()
         await self._connect_hello_login(login)
+        self._raise_if_closed()
         self._async_schedule_keep_alive(self._loop.time())
+
+    def _raise_if_closed(self) -> None:
+        """Raise if the connection was closed while a connect step was completing.
+
+        The awaited step may complete in the same event loop iteration
+        in which the connection was closed; the close must not be undone.
+        """
+        if self.connection_state is CONNECTION_STATE_CLOSED:
+            raise self._fatal_exception or ConnectionInterruptedError
 
     async def finish_connection(self, *, login: bool) -> None:
         """Finish the connection process.
